@@ -1,1 +1,2 @@
-
+def docs_init_function() -> str:
+    return ""
